@@ -23,6 +23,7 @@ type Cell struct {
 	M       string   `json:"m"`
 	Msg     string   `json:"msg,omitempty"`
 	Signer  string   `json:"signer,omitempty"`
+	Holder  string   `json:"holder,omitempty"`
 	V       string   `json:"v,omitempty"`
 	Chain   string   `json:"chain,omitempty"`
 	Sender  string   `json:"sender,omitempty"`
@@ -90,6 +91,12 @@ func (f *Fix) signer(name string) sdk.AccAddress {
 		return f.Owner
 	case "other":
 		return f.Other
+	case "risk":
+		return f.Risk
+	case "newbie":
+		return f.Newbie
+	case "lp":
+		return f.LP
 	case "module":
 		return sim.ModAddr("vaultV1")
 	case "admin":
@@ -164,7 +171,7 @@ func key(c Cell) string { b, _ := json.Marshal(c); return string(b) }
 func (r *runner) execState(s *sim.Env, root int, cells []Cell) {
 	f := r.f
 	// ---------------- owner matrix: the owner's own attempt first (non-vacuity reference), then the others
-	var own, priv, kill, ctl, hook []Cell
+	var own, priv, kill, ctl, hook, auc []Cell
 	for _, c := range cells {
 		switch c.M {
 		case "own":
@@ -177,25 +184,25 @@ func (r *runner) execState(s *sim.Env, root int, cells []Cell) {
 			ctl = append(ctl, c)
 		case "hook":
 			hook = append(hook, c)
+		case "auc":
+			auc = append(auc, c)
 		}
 	}
-	sort.SliceStable(own, func(a, b int) bool { return own[a].Signer == "owner" && own[b].Signer != "owner" })
+	sort.SliceStable(own, func(a, b int) bool { return own[a].Signer == own[a].Holder && own[b].Signer != own[b].Holder })
 	ref := map[string]int{}
 	for _, c := range own {
 		e := s.Branch()
-		sg := f.signer(c.Signer)
-		msg := builders[c.Msg](f, e, sg, f.Owner, "oracle")
-		pre, vpre := e.Digest(), f.VictimView(e, f.Owner)
+		sg, holder := f.signer(c.Signer), f.signer(c.Holder)
+		msg := builders[c.Msg](f, e, sg, holder, "oracle")
+		pre, vpre := e.Digest(), f.VictimView(e, holder)
 		res, dirty := deliverObserved(e, msg, pre)
-		post, vpost := e.Digest(), f.VictimView(e, f.Owner)
-		args := map[string]interface{}{"m": c.M, "msg": c.Msg, "signer": c.Signer, "ref": 0}
-		if c.Signer != "owner" {
-			args["ref"] = ref[c.Msg]
-		}
+		post, vpost := e.Digest(), f.VictimView(e, holder)
+		rk := c.Msg + "/" + c.Holder
+		args := map[string]interface{}{"m": c.M, "msg": c.Msg, "holder": c.Holder, "signer": c.Signer, "ref": ref[rk]}
 		id := r.lg.Add(root, r.run, "Own", args, rj(res), map[string]interface{}{"pre": pre, "post": post, "vpre": vpre, "vpost": vpost, "dirty": dirty})
-		if c.Signer == "owner" {
-			ref[c.Msg] = id
-			r.lg.Nodes[id-1].Args.(map[string]interface{})["ref"] = id
+		if c.Signer == c.Holder {
+			ref[rk] = id
+			args["ref"] = id
 		}
 	}
 	// ---------------- privileged matrix: reference = the contract designated for the variant, on comdex-1
@@ -317,6 +324,33 @@ func (r *runner) execState(s *sim.Env, root int, cells []Cell) {
 			args["ref"] = id
 		}
 	}
+	// ---------------- per-block steps on live Dutch auctions
+	sort.SliceStable(auc, func(a, b int) bool { return len(auc[a].Off) == 0 && len(auc[b].Off) != 0 })
+	ref = map[string]int{}
+	for _, c := range auc {
+		e := s.Branch()
+		f.armAuction(e, c.Hook)
+		for _, role := range c.Off {
+			asset := f.CMDX
+			if role == "out" {
+				asset = f.CMST
+			}
+			if c.Pm == "missing" {
+				PriceMissing(e, asset)
+			} else {
+				PriceActive(e, asset, false)
+			}
+		}
+		pre, apre, live := e.Digest(), f.AuctionView(e, c.Hook), f.AuctionCount(e, c.Hook)
+		res := f.runAuctionStep(e, c.Hook)
+		post, apost := e.Digest(), f.AuctionView(e, c.Hook)
+		args := map[string]interface{}{"m": c.M, "hook": c.Hook, "app": c.App, "off": c.Off, "pm": c.Pm, "ref": ref[c.Hook]}
+		id := r.lg.Add(root, r.run, "Auc", args, rj(res), map[string]interface{}{"pre": pre, "post": post, "apre": apre, "apost": apost, "live": live})
+		if len(c.Off) == 0 {
+			ref[c.Hook] = id
+			args["ref"] = id
+		}
+	}
 }
 
 func Main(args []string) int {
@@ -372,10 +406,10 @@ func refOf(c Cell) Cell {
 	r := c
 	switch c.M {
 	case "own":
-		r.Signer = "owner"
+		r.Signer = c.Holder
 	case "priv":
 		r.Chain, r.Sender = "comdex-1", c.Des
-	case "ctl", "hook":
+	case "ctl", "hook", "auc":
 		r.Breaker, r.Esm, r.Off, r.Pm = false, "off", []string{}, "na"
 	}
 	return r
